@@ -89,6 +89,8 @@ class Obs:
                     raise TypeError('All names have to be strings.')
             if min(len(x) for x in samples) <= 4:
                 raise ValueError('Samples have to have at least 5 entries.')
+            if any(np.iscomplexobj(x) for x in samples):
+                raise TypeError('Samples have to be real, use CObs for complex data.')
 
         self.names = sorted(names)
         self.shape = {}
